@@ -262,7 +262,7 @@ func (df *DataFile) writeToBuf(data []byte, blockID uint32, blockLen uint32, buf
 	return pos, nextID, nextSize
 }
 
-func (df *DataFile) ReadRecordValue(logRecordPos *DataPos) ([]byte, error) {
+func (df *DataFile) ReadRecordValue(logRecordPos *DataPos, key []byte) ([]byte, error) {
 	if df.closed {
 		return nil, ErrClosed
 	}
@@ -271,6 +271,10 @@ func (df *DataFile) ReadRecordValue(logRecordPos *DataPos) ([]byte, error) {
 	err := df.readToBuf(logRecordPos.BlockID, logRecordPos.Offset, buf)
 	if err != nil {
 		return nil, err
+	}
+	// 该位置的记录必须属于索引中的 key: 数据被另一条合法记录覆盖时 CRC 依然有效, 只有 key 能识别
+	if !logRecordKeyEquals(buf.B, key) {
+		return nil, ErrInvalidCRC
 	}
 	value := DecodeLogRecordValue(buf.B)
 	return value, nil
